@@ -58,6 +58,14 @@ def make_plan(seed: int, tier: str) -> dict:
     else:
         cfg["burn_in_step_power"] = st.choice([0.8, 1.0, 0.5000001, 0.65, round(st.uniform(0.51, 1.0), 3)])
     cfg["decisions"] = {k: v for k, v in cfg["decisions"].items() if int(k) <= n_iter}
+    ann = cfg.get("annealing")
+    if ann:
+        # (n_iter was re-drawn above) keep the tempered configuration admissible: at least n_plateau - 1 annealing iterations
+        n_ann = int(ann["n_iter_frac"] * n_iter)
+        if n_ann < 1:
+            cfg.pop("annealing")
+        else:
+            ann["n_plateau"] = max(2, min(ann["n_plateau"], n_ann + 1))
     return {"seed": seed, "tier": tier, "engine": "fitsim_c05", "world": cfg}
 
 
@@ -210,8 +218,11 @@ def run_plan(plan: dict) -> dict:
         C["probe.power_refused"] += 1
         if not isinstance(exc, LeaspyAlgoInputError) or C["steps.mstep"] > 0:
             violation(out, "power_refusal", f"invalid_power_not_refused:{power}", f"power={power}: {type(exc).__name__ if exc else 'ran'}")
-    elif isinstance(exc, LeaspyAlgoInputError):
+    elif isinstance(exc, LeaspyAlgoInputError) and "burn_in_step_power" in str(exc):
         violation(out, "power_refusal", f"valid_power_refused:{power}", str(exc)[:200])
+    elif isinstance(exc, LeaspyAlgoInputError):
+        # refused for another documented reason (e.g. an annealing configuration made inadmissible while shrinking): not about C05
+        out["discarded"] = "refused_for_another_reason"
     elif isinstance(exc, LeaspyConvergenceError):
         C["abort.convergence_error"] += 1
     elif exc is not None:
